@@ -32,70 +32,75 @@ Theorem C06_entry_never_panics_below_4GiB : forall bs hdr off,
 Proof. exact entry_u32_eq. Qed.
 Print Assumptions C06_entry_never_panics_below_4GiB.
 
-(* ---- soundness, for arbitrary bytes: every returned pair is a record
-   reachable from a bucket head by next links, with the name expanded *)
+(* ---- soundness, for arbitrary bytes: the result is the list of (expanded
+   name, value) of records reachable from a bucket head by next links, and
+   those records have pairwise different STORED names: a chain in which a
+   stored name repeats is answered "corrupt", never with a result *)
 Theorem C06_parse_sound : forall oob bs kv cs, parse_with oob bs = POk kv cs ->
-  Forall (from_record oob bs) cs.
+  exists R, cs = map expand R /\ NoDup (map fst R) /\ Forall (raw_record oob bs) R.
 Proof. exact parse_sound. Qed.
 Print Assumptions C06_parse_sound.
 
-(* ---- faithfulness: on a well-formed file Parse returns exactly what the
-   independent reader of the layout returns (metadata key/values; expanded
-   name/value pairs in bucket order, as maps: a later pair overrides an earlier
-   one with the same expanded name) unless the file is in the class twin_clash:
-   some record's raw name equals the expansion of an earlier record's name *)
-Theorem C06_parse_faithful : forall oob bs, wf_file bs = true -> twin_clash bs = false ->
+(* ---- faithfulness: on EVERY well-formed file Parse returns exactly what the
+   independent reader of the layout returns: the metadata key/values and, in
+   bucket order, every record's (expanded name, value); as maps: a later pair
+   overrides an earlier one with the same expanded name *)
+Theorem C06_parse_faithful : forall oob bs, wf_file bs = true ->
   match spec_decode bs with Some (kv, cs) => parse_with oob bs = POk kv cs | None => False end.
 Proof. exact parse_faithful. Qed.
 Print Assumptions C06_parse_faithful.
 
-(* in that class the real decoder rejects the (well-formed) file: refutation of
-   faithfulness, in general and with a file the library itself writes *)
-Theorem C06_faithful_refuted_in_class : forall oob bs, wf_file bs = true -> twin_clash bs = true ->
-  parse_with oob bs = PErrCorrupt.
-Proof. exact parse_rejects_twin. Qed.
-Print Assumptions C06_faithful_refuted_in_class.
+(* the walk over records the layout reader accepts: different stored names are
+   all taken; a stored name met before (or twice) gives corrupt *)
+Theorem C06_distinct_names_all_taken : forall rs seen acc,
+  NoDup (map r_name rs) -> (forall r, In r rs -> ~ In (r_name r) seen) ->
+  walk_spec seen acc rs = WOk (rev (map r_name rs) ++ seen) (rev (decoded rs) ++ acc).
+Proof. exact walk_spec_nodup. Qed.
+Print Assumptions C06_distinct_names_all_taken.
 
-Theorem C06_faithful_refuted :
-  wf_file twin_file = true /\ twin_clash twin_file = true /\ parse twin_file = PErrCorrupt /\
-  decode_stack twin_a = twin_b.
-Proof. exact twin_file_facts. Qed.
-Print Assumptions C06_faithful_refuted.
+Theorem C06_repeated_name_is_corrupt : forall rs seen acc,
+  (exists r, In r rs /\ In (r_name r) seen) \/ ~ NoDup (map r_name rs) ->
+  walk_spec seen acc rs = WCorrupt.
+Proof. exact walk_spec_dup. Qed.
+Print Assumptions C06_repeated_name_is_corrupt.
 
-(* a condition on the names alone that keeps a file out of the class *)
-Theorem C06_no_twin_no_clash : forall rs seen,
-  NoDup (map r_name rs) ->
-  (forall r, In r rs -> ~ In (r_name r) seen) ->
-  (forall a b, In a rs -> In b rs -> r_name a <> r_name b -> r_name b <> decode_stack (r_name a)) ->
-  twin_clash_from seen rs = false.
-Proof. exact no_twin_no_clash. Qed.
-Print Assumptions C06_no_twin_no_clash.
-
-(* ---- a function of the input: outside the class oob_head (a bucket head
-   offset hdrLen+4+4i falls in the last three bytes of the input) the answer
-   does not depend on what follows the input in memory; well-formed files are
-   outside the class *)
-Theorem C06_parse_oob_indep : forall o1 o2 bs, oob_head bs = false -> parse_with o1 bs = parse_with o2 bs.
+(* ---- a function of the input: for every input the answer does not depend on
+   what follows the input in memory (load32 answers 0 unless all four bytes
+   are inside the input) *)
+Theorem C06_parse_oob_indep : forall o1 o2 bs, parse_with o1 bs = parse_with o2 bs.
 Proof. exact parse_oob_indep. Qed.
 Print Assumptions C06_parse_oob_indep.
 
-Theorem C06_wf_not_oob : forall bs, wf_file bs = true -> oob_head bs = false.
-Proof. exact wf_no_oob. Qed.
-Print Assumptions C06_wf_not_oob.
+(* ---- non-vacuity and the former defect classes, now positive *)
+(* a counter whose raw name is the expansion of another counter's name: both
+   records are read, the later one wins under the common expanded name *)
+Example C06_expanded_twin_later_wins :
+  wf_file twin_file = true /\ decode_stack twin_a = twin_b /\
+  parse twin_file = POk [(s2b "Program", s2b "p")] [(twin_b, 1); (twin_b, 2)] /\
+  last_wins [(twin_b, 1); (twin_b, 2)] = [(twin_b, 2)].
+Proof. exact twin_file_facts. Qed.
 
-(* inside the class the real decoder reads past its input: refutation *)
-Theorem C06_oob_refuted :
-  len oob_file = 16384 /\ oob_head oob_file = true /\
-  parse_with [] oob_file = POk [] [] /\ parse_with [255; 255; 255] oob_file = PErrCorrupt.
-Proof. exact oob_file_facts. Qed.
-Print Assumptions C06_oob_refuted.
-
-(* ---- non-vacuity *)
 Example C06_later_record_wins :
   let f := file_after [OpAdd twin_a2 1; OpAdd twin_b2 2] in
-  wf_file f = true /\ twin_clash f = false /\
+  wf_file f = true /\
   parse f = POk [(s2b "Program", s2b "p")] [(twin_b2, 2); (twin_b2, 1)].
 Proof. exact twin2_file_facts. Qed.
+
+Example C06_repeated_stored_name : parse dup_file = PErrCorrupt /\ wf_file dup_file = false.
+Proof. exact dup_file_facts. Qed.
+
+(* header length field that puts a bucket head across the end of the input *)
+Example C06_head_across_end_of_input :
+  len oob_file = 16384 /\
+  parse_with [] oob_file = POk [] [] /\ parse_with [255; 255; 255] oob_file = POk [] [].
+Proof. exact oob_file_facts. Qed.
+
+(* record offsets must be multiples of 8 *)
+Example C06_unaligned_record_refused :
+  parse unaligned_file = PErrCorrupt /\
+  parse (put (put (c_hdrPrefix ++ le32 32 ++ zeros (16384 - 32)) 36 (le32 4008))
+             4008 (le64 7 ++ le32 3 ++ le32 0 ++ s2b "abc")) = POk [] [(s2b "abc", 7)].
+Proof. exact unaligned_file_facts. Qed.
 
 Example C06_example_run :
   let f := file_after [OpAdd (s2b "gopls/client:vscode") 3; OpNew (s2b "b"); OpAdd (s2b "gopls/client:vscode") 4;
